@@ -29,7 +29,8 @@ Items(e) ==
     [] e = "fb" -> FunItems("fb", FALSE)
     [] e = "CA" -> { <<"CA", "desc", "desc", "">>, <<"CA", "p_x", "param", "x">>, <<"CA.at", "at", "desc", "">> } \cup FunItems("CA.meth", FALSE)
                    \cup FunItemsP("CA.re__init__", "x")       \* a method whose name ends in __init__, its parameter is named like the constructor's
-    [] e = "CB" -> { <<"CB", "desc", "desc", "">> } \cup FunItems("CB.meth", FALSE)
+    [] e = "CB" -> { <<"CB", "desc", "desc", "">>, <<"CB.at", "at", "desc", "">>, <<"CB.In", "desc", "desc", "">>, <<"CB.In.at", "at", "desc", "">> }
+                   \cup FunItems("CB.meth", FALSE)       \* CB and its nested class In each document an attribute called `at`
     [] e = "CC" -> {}
     [] e = "CD" -> { <<"CD", "p_z", "param", "z">> }     \* no class docstring; the constructor's docstring documents the parameter
     [] e = "fc" -> { <<"fc", "desc", "desc", "">>, <<"fc", "p_p", "param", "p">>,
@@ -72,7 +73,7 @@ Judge(obs) ==
       exp == { it \in AllItems : Carried(it, obs.style) }
       at(it) == { f \in F : f.owner = it[1] /\ f.item = it[2] }
       owner2decl(it) == IF Structured(obs.style) \/ it[2] = "desc" THEN it[1]
-                        ELSE IF it[2] = "at" THEN "CA" ELSE it[1]      \* plain text: items stay inside the docstring of their element
+                        ELSE IF it[2] = "at" THEN SubSeq(it[1], 1, Len(it[1]) - 3) ELSE it[1]      \* plain text: items stay inside the docstring of their element (an attribute's: its class)
   IN
      { [property |-> "C13", clause |-> "Attach", sig |-> "lost:" \o obs.style \o ":" \o it[3], expected |-> it[1] \o "/" \o it[2], observed |-> "absent"] : it \in { it \in exp : at(it) = {} } }
   \cup { [property |-> "C13", clause |-> "Attach", sig |-> "repeated:" \o obs.style \o ":" \o it[3], expected |-> "once", observed |-> ToString(Cardinality(at(it)))] : it \in { it \in exp : Cardinality(at(it)) > 1 } }
